@@ -122,7 +122,7 @@ CLAIMS = {
         "new offset is beyond all earlier ones (never reused); reopen is the identity. THE MAP FILE (map_store, map_reopen; Model/EventMap.lean: file length, persisted end "
         "marker, remembered length and mapping length, the alignment padding, the grow-and-retry loop, set_len modelled as setting the length EXACTLY, i.e. truncating when smaller): "
         "on a consistent map an append never fails, returns the 8-aligned old end, advances the end by exactly the event's size and leaves the file at least as long as before; "
-        "reopening finds the same end and the real length, also when the map is full to its last byte. DELINEATION ON READ (delineate_ignores_what_follows): the event is cut "
+        "reopening finds the same end and the real length, also when the map is full to its last byte. event_map_from_source: EventStore::new (what counts as a new file, its initial length, the length it remembers), the padding of store_event and one round of its grow path (file, mapping and remembered length := remembered length + one chunk, in that order), matched against event_store.rs and translated on every run, are the model's emOpen / emPad / emGrow. DELINEATION ON READ (delineate_ignores_what_follows): the event is cut "
         "out exactly however many bytes (4 GiB and more) of later events lie behind it. Correspondence: histories with event sizes 0 B..3 map chunks and exact-fit events, "
         "every returned offset and every id re-read after every step on the real store vs model, the map file's length vs the model's after every step incl. reopen and rebuild; "
         "Event::delineate on slices continuing 0..3x4 GiB behind the event; direct oracle: bytes equal an independent Python encoding of what was submitted; the file never shrinks. Forced two-thread schedules: two stores of ONE id Histories that start in a pre-sized event.map (PRE: 1..5 chunks, odd lengths), file length vs the model at every step; growth-step races (a store growing the map paused at every point while another thread stores chunk-sized events: whatever returned an offset reads back whole). (same bytes, or different bytes under one id) through every yield point - exactly one offset, the other duplicate, the stored one reads back by id.",
@@ -221,7 +221,7 @@ CLAIMS = {
         "its targets gone and nothing else; whatever state store creation is killed in (absent / empty / sized without header / initialised) the next open "
         "starts from an empty initialised map. THE MAP FILE THROUGH A KILL (store_kill_map_states, creation_map_states): whatever durable (file length, end marker) pair a kill "
         "inside store_event leaves - before/after the padding, after any number of set_len growth rounds, after the append - the file is at least as long as before, the marker is the "
-        "old, the aligned or the final one and lies inside the file; the next open succeeds with that marker and the real length, and every later store can only extend the file. "
+        "old, the aligned or the final one and lies inside the file; the next open succeeds with that marker and the real length, and every later store can only extend the file. event_map_from_source ties emOpen / emPad / emGrow to event_store.rs as it reads on this run. "
         "Fault enumeration on the real code through the verif hooks: for each step of each history and each named point "
         "and occurrence a child dies there by _exit (incl. mid-copy and during file growth), the parent reopens, compares the battery with the model's "
         "before/after states, and continues the history (after a kill in the growth path long enough for two more growth rounds); the (file length, end) pair found after the reopen "
